@@ -77,6 +77,52 @@ func c18Body(roles []string) func(x *sched.X) {
 	}
 }
 
+// c18TriggerBody: the REAL truncation trigger (weight signal -> runTruncate daemon, threshold scaled to 4) running
+// while clients keep proposing, delivering and reading: the daemon's own bookkeeping is part of the workload.
+func c18TriggerBody(roles []string) func(x *sched.X) {
+	return func(x *sched.X) {
+		vsched.Quiet(true)
+		nd := world.GetNodes("G")
+		w := world.NewLW(nd, sp(100, 0), 4)
+		R, A := world.Cast("R"), world.Cast("A")
+		ctx := context.Background()
+		for i := 0; i < 5; i++ {
+			if _, err := w.Propose(ctx, 0, w.Tx(fmt.Sprintf("s%d", i), R, A, 1, 0)); err != nil {
+				panic(err)
+			}
+			vsched.Settle()
+		}
+		snap := nd[0].Book.VerifSnapshot()
+		for k := range c08Tip {
+			delete(c08Tip, k)
+		}
+		for _, v := range snap.Vertices {
+			if len(snap.Leaves) > 0 && v.Hash == snap.Leaves[0] {
+				c08Tip[w] = c08TipT{v.Hash, v.Weight}
+			}
+		}
+		vsched.Quiet(false)
+		var hs []*vsched.Handle
+		for i, role := range roles {
+			role := role
+			hs = append(hs, vsched.GoClient(fmt.Sprintf("%s%d", role, i), func() {
+				if role == "create3" {
+					// three proposals in a row: the weight passes the threshold, the daemon truncates in between
+					for k := 0; k < 3; k++ {
+						w.Propose(ctx, 0, w.Tx(fmt.Sprintf("c18-u%d", k), R, A, 1, 0))
+					}
+					return
+				}
+				c18Client(w, role)
+			}))
+		}
+		vsched.Join(hs...)
+		vsched.Settle()
+		post := nd[0].Book.VerifSnapshot()
+		x.Obsf("done stored=%d", len(post.Stored))
+	}
+}
+
 func raceKey(r vsched.Race) string {
 	loc := strings.TrimSuffix(r.Loc, "(struct copy)")
 	s := []string{r.A, r.B}
@@ -118,6 +164,13 @@ func c18Scenarios() map[string]*sched.Scenario {
 	add("S4/truncate+create+balance", "truncate", "create", "balance")
 	add("S5/orphan+create+readtrx+history", "orphan", "create", "readtrx", "history")
 	add("S6/orphan+tick+create+stream+loaded", "orphan", "tick", "create", "stream", "loaded")
+	addTrig := func(name string, roles ...string) {
+		m[name] = &sched.Scenario{Name: name, Params: []int{0}, Opt: opt, Body: c18TriggerBody(roles), Oracle: c18Oracle(name),
+			Setup:       func() { world.GetNodes("G") },
+			Interesting: func(x *sched.X, r *vsched.Result) bool { return true }}
+	}
+	addTrig("S7/real-truncation-trigger+create3+create", "create3", "create")
+	addTrig("S8/real-truncation-trigger+create3+orphan+balance", "create3", "orphan", "balance")
 	addFull := func(name string, pre []string, roles ...string) {
 		m[name] = &sched.Scenario{Name: name, Params: []int{0}, Opt: opt, Body: c18FullBody(pre, roles), Oracle: c18Oracle(name),
 			Setup:       func() { world.GetFullNodes("G", "N1") },
